@@ -51,6 +51,9 @@ impl State {
 //@use compile.fns State::build_from_source
 //@use compile.fns State::build_from_file
 //@use compile.fns State::dict_insert
+//@use compile.fns State::dict_key
+//@use compile.fns State::dict_entry
+//@use compile.fns State::dict_pos
 //@use state.fns State::alloc_heap assumed
 //@use state.fns State::check_heap_limit assumed
 }
@@ -85,6 +88,14 @@ fn verif_read_source_file(path: &Xstr) -> Xresult1<String> { unimplemented!() }
 #[verifier::external_body] fn verif_control_flow_error() -> (r: Xresult) ensures r is Err { unimplemented!() }
 // R13: `Xstr::from(name.as_str())` (arcstr substring -> string): opaque
 #[verifier::external_body] fn verif_xstr_of(name: &Xsubstr) -> Xstr { unimplemented!() }
+// text of a name (opaque): lets code that looks a name up in the dictionary stay inside the unit
+pub uninterp spec fn name_text(s: &str) -> Seq<char>;
+pub uninterp spec fn xstr_text(s: Xstr) -> Seq<char>;
+spec fn dict_last(d: Seq<DictEntry>, t: Seq<char>, i: int) -> bool {
+    0 <= i < d.len() && xstr_text(d[i].name) == t && forall|j: int| i < j < d.len() ==> xstr_text(d[j].name) != t
+}
+impl Xsubstr { #[verifier::external_body] pub fn as_str(&self) -> (r: &str) { unimplemented!() } }
+impl Xstr { #[verifier::external_body] pub fn as_str(&self) -> (r: &str) ensures name_text(r) == xstr_text(*self) { unimplemented!() } }
 impl Xerr {
     #[verifier::external_body] pub fn conditional_var_definition() -> Xerr { unimplemented!() }
     #[verifier::external_body] pub fn unbalanced_fn_builder() -> Xerr { unimplemented!() }
